@@ -205,6 +205,20 @@ mod mocks {
         }
     }
 
+    /// creates a contract on behalf of `who` (needs who's authorisation for the call and for the creation)
+    #[contract]
+    pub struct Deployer;
+    #[contractimpl]
+    impl Deployer {
+        pub fn deploy(e: Env, who: Address, wasm: BytesN<32>, salt: BytesN<32>, admin: Option<Address>) -> Address {
+            who.require_auth();
+            match admin {
+                Some(a) => e.deployer().with_address(who, salt).deploy_v2(wasm, (a,)),
+                None => e.deployer().with_address(who, salt).deploy_v2(wasm, ()),
+            }
+        }
+    }
+
     /// a contract whose entry point needs the authorisation of `who`, and calls others that do too
     #[contract]
     pub struct Target;
@@ -254,8 +268,8 @@ enum Op {
 #[derive(Clone, Debug, Default)]
 struct Authz { sigs: std::vec::Vec<(Sg, Cls)>, auths: std::vec::Vec<usize> }
 
-const FN_NAMES: [&str; 15] = ["act", "add_context_rule", "update_context_rule_name", "update_context_rule_valid_until",
-    "remove_context_rule", "add_signer", "remove_signer", "add_policy", "remove_policy", "foo", "bar", "execute", "set_threshold", "transfer", "multi"];
+const FN_NAMES: [&str; 16] = ["act", "add_context_rule", "update_context_rule_name", "update_context_rule_valid_until",
+    "remove_context_rule", "add_signer", "remove_signer", "add_policy", "remove_policy", "foo", "bar", "execute", "set_threshold", "transfer", "multi", "deploy"];
 const RULE_NAMES: [&str; 4] = ["multisig", "ops", "treasury", "guardians"];
 const UNKNOWN: u64 = 999;
 /// index of the real simple-threshold policy among the policies (Model: real_thr)
@@ -300,8 +314,10 @@ impl World {
         policies.push(e.register(LoggedSpending, (&lg,)));
         let t1 = e.register(Target, ());
         let t2 = e.register(Target, ());
-        let callees = std::vec![Address::generate(&e) /* placeholder for the account */, t1, t2, Address::generate(&e), policies[REAL_THR].clone()];
-        let wasms = (0..2u8).map(|i| BytesN::from_array(&e, &[0x51 + i; 32])).collect();
+        let callees = std::vec![Address::generate(&e) /* placeholder for the account */, t1, t2, Address::generate(&e), policies[REAL_THR].clone(), e.register(Deployer, ())];
+        // real uploaded code, so that contracts can really be created from it: 0 = no constructor, 1 = constructor(admin)
+        let wasms: std::vec::Vec<BytesN<32>> = ["/repo/examples/upgradeable/testdata/upgradeable_v2_example.wasm", "/repo/examples/upgradeable/testdata/upgradeable_v1_example.wasm"].iter()
+            .map(|f| e.deployer().upload_contract_wasm(Bytes::from_slice(&e, &std::fs::read(f).expect("wasm test data")))).collect();
         World { e, lg, acc: None, verifiers, keys, delegated, policies, callees, wasms, nonce: 1, adds: 0 }
     }
     fn acc(&self) -> &Address { self.acc.as_ref().unwrap() }
@@ -426,7 +442,7 @@ impl World {
         }
         v
     }
-    fn types() -> std::vec::Vec<Ct> { std::vec![Ct::Default, Ct::Call(0), Ct::Call(1), Ct::Call(2), Ct::Call(3), Ct::Call(4), Ct::Create(0), Ct::Create(1)] }
+    fn types() -> std::vec::Vec<Ct> { std::vec![Ct::Default, Ct::Call(0), Ct::Call(1), Ct::Call(2), Ct::Call(3), Ct::Call(4), Ct::Call(5), Ct::Create(0), Ct::Create(1)] }
     fn observe(&self) -> String {
         let now = self.e.ledger().sequence();
         match &self.acc {
@@ -528,7 +544,7 @@ impl World {
 // ---------------------------------------------------------------------------------------------
 // one trace
 // ---------------------------------------------------------------------------------------------
-struct Tr<'a> { w: World, items: std::vec::Vec<String>, out: &'a mut Out, nsig: usize, nkey: usize, npol: usize }
+struct Tr<'a> { w: World, items: std::vec::Vec<String>, out: &'a mut Out, nsig: usize, nkey: usize, npol: usize, last_log: std::vec::Vec<String>, salt: u8 }
 
 
 impl<'a> Tr<'a> {
@@ -539,6 +555,7 @@ impl<'a> Tr<'a> {
             None => if leftover.is_empty() { "Fail".to_string() } else { format!("(Ok (None, {}))", list(&leftover)) },
         };
         let extra = match &ok { Some((_, log)) => { if log.iter().any(|l| l.starts_with("EEnforce")) { "+enf" } else { "" } } None => "" };
+        self.last_log = match &ok { Some((_, log)) => log.clone(), None => std::vec![] };
         self.out.case(&format!("{}/{}{}", label, if ok.is_some() { "ok" } else { "fail" }, extra), &call);
         let obs = self.w.observe();
         self.items.push(format!("({}, {}, {})", call, outcome, obs));
@@ -702,6 +719,137 @@ impl<'a> Tr<'a> {
         let call = format!("SetThreshold {} {} {} {} {}", b(via_execute), World::g_authz(&Authz { sigs: ordered, auths: a.auths.clone() }), id, t, nsig);
         let label = if via_execute { "set_threshold.execute" } else { "set_threshold.direct" };
         match res { Ok(Ok(_)) => { self.push(label, call, Some((None, log)), std::vec![]); true } _ => { self.push(label, call, None, log); false } }
+    }
+    /// end to end: the deployer contract (callee 5) creates a contract from wasm `w` on the account's behalf; the host
+    /// derives the contexts [call of the deployer; create contract (with constructor when w = 1)]
+    fn invoke_deploy(&mut self, a: &Authz, w: usize) -> bool {
+        let e = self.w.e.clone();
+        let acc = self.w.acc().clone();
+        let dep = self.w.callees[5].clone();
+        self.salt += 1;
+        let salt = BytesN::from_array(&e, &[self.salt; 32]);
+        let admin: Option<Address> = if w == 1 { Some(self.w.callees[3].clone()) } else { None };
+        let args: Vec<Val> = soroban_sdk::vec![&e, acc.to_val(), self.w.wasms[w].to_val(), salt.to_val(), admin.clone().into_val(&e)];
+        let ctor: std::vec::Vec<xdr::ScVal> = match &admin { Some(ad) => std::vec![xdr::ScVal::Address(ad.try_into().unwrap())], None => std::vec![] };
+        let create = xdr::SorobanAuthorizedInvocation {
+            function: xdr::SorobanAuthorizedFunction::CreateContractV2HostFn(xdr::CreateContractArgsV2 {
+                contract_id_preimage: xdr::ContractIdPreimage::Address(xdr::ContractIdPreimageFromAddress { address: (&acc).try_into().unwrap(), salt: xdr::Uint256(salt.to_array()) }),
+                executable: xdr::ContractExecutable::Wasm(xdr::Hash(self.w.wasms[w].to_array())),
+                constructor_args: ctor.try_into().unwrap(),
+            }),
+            sub_invocations: std::vec![].try_into().unwrap(),
+        };
+        let root = self.w.node(&dep, "deploy", args.clone(), std::vec![create]);
+        let (ordered, payload) = self.w.authorise(a, root);
+        let r = e.try_invoke_contract::<Val, soroban_sdk::Error>(&dep, &Symbol::new(&e, "deploy"), args);
+        e.set_auths(&[]);
+        let log = self.w.take_log(Some(&payload));
+        let cs = std::vec![Cx::Call(5, 15), if w == 1 { Cx::CreateCtor(1) } else { Cx::Create(0) }];
+        let call = format!("Invoke {} {}", World::g_authz(&Authz { sigs: ordered, auths: a.auths.clone() }), list(&cs.iter().map(|c| World::g_cx(*c)).collect::<std::vec::Vec<_>>()));
+        match r { Ok(Ok(_)) => { self.push("invoke.deploy", call, Some((None, log)), std::vec![]); true } _ => { self.push("invoke.deploy", call, None, log); false } }
+    }
+    /// a situation of the property's quantifier was built and behaved as intended
+    fn sit(&mut self, name: &str, cond: bool) { if cond { self.out.label(&format!("sit/{}", name)); } }
+    fn enforced(&self, p: usize) -> bool { self.last_log.iter().any(|l| l.starts_with(&format!("EEnforce {}%N", p))) }
+
+    /// the situations the property quantifies over, built one by one, deterministically (no random choice decides
+    /// whether a situation occurs); each is labelled when the implementation behaves as the property says
+    fn sc_situations(&mut self) {
+        self.nsig = 8; self.nkey = 4; self.npol = 7;
+        if !self.start() { return; }
+        let (s1, s2, f1) = (Sg::Ext(0, 0), Sg::Del(1), Sg::Ext(1, 3));
+        let adm = self.adm();
+        let c = Cx::Call(1, 9);
+        let a1 = self.exact(&[s1]);
+        // -- extreme expiries: u32::MAX never lapses, 0 is in the past
+        let ok = self.add(Ct::Create(1), Some(u32::MAX), &[s2], &[]);
+        let a2x = self.exact(&[s2]); let ok2 = self.check_auth(&a2x, &[Cx::Create(1)]);
+        self.sit("valid-until-u32-max", ok && ok2);
+        let ok = self.add(Ct::Create(1), Some(0), &[Sg::Del(2)], &[]); self.sit("valid-until-zero-refused", !ok);
+        // -- a rule with policies only decides for an empty signature map
+        let rp = self.w.adds; let ok = self.add(Ct::Call(3), None, &[], &[(5, 1)]);
+        let none = self.exact(&[]); let ok2 = self.check_auth(&none, &[Cx::Call(3, 10)]); let e5 = self.enforced(5);
+        self.sit("policy-only-rule-empty-signature-map", ok && ok2 && e5);
+        let _ = rp;
+        // -- precedence between two satisfied rules of one type: the newest decides
+        let ra = self.w.adds; self.add(Ct::Call(1), None, &[s1], &[(0, 1)]);
+        let rb = self.w.adds; self.add(Ct::Call(1), None, &[s1], &[(1, 1)]);
+        let ok = self.check_auth(&a1, &[c]); let (e0, e1) = (self.enforced(0), self.enforced(1));
+        self.sit("two-satisfied-newest-wins", ok && e1 && !e0);
+        // -- a type-specific rule beats a NEWER satisfied Default rule
+        let rd = self.w.adds; self.add(Ct::Default, None, &[s1], &[(2, 1)]);
+        self.set_mode(2, rd, &Md { install: true, uninstall: true, can: Pd::Min(1), enf: Pd::True });
+        let ok = self.check_auth(&a1, &[c]); let (e1, e2) = (self.enforced(1), self.enforced(2));
+        self.sit("typed-beats-newer-default", ok && e1 && !e2);
+        let ok = self.check_auth(&a1, &[Cx::Create(1)]); let e2 = self.enforced(2);
+        self.sit("default-covers-other-types", ok && e2);
+        // -- valid_until = now is still valid; one ledger later expiry alone changes who decides
+        let nw = self.now();
+        self.admin(&adm, &Op::UpdValid(rb, Some(nw)));
+        let ok = self.check_auth(&a1, &[c]); let e1 = self.enforced(1);
+        self.sit("valid-until-equals-now-decides", ok && e1);
+        self.advance(1);
+        let ok = self.check_auth(&a1, &[c]); let (e0, e1) = (self.enforced(0), self.enforced(1));
+        self.sit("expired-newest-skipped", ok && e0 && !e1);
+        // -- expiry alone refuses: the only rule that could cover the context has lapsed
+        let nw = self.now();
+        self.add(Ct::Create(0), Some(nw), &[s2], &[]);
+        let a2 = self.exact(&[s2]);
+        let ok = self.check_auth(&a2, &[Cx::CreateCtor(0)]); self.sit("valid-until-equals-now-accepted", ok);
+        self.advance(1);
+        let ok = self.check_auth(&a2, &[Cx::CreateCtor(0)]); self.sit("expiry-alone-refuses", !ok);
+        // -- a foreign signer does not count: it would flip the policy's answer if it did
+        let s3 = Sg::Ext(0, 1);
+        let rf = self.w.adds; self.add(Ct::Call(2), None, &[s3, s2], &[(3, 1)]);
+        self.set_mode(3, rf, &Md { install: true, uninstall: true, can: Pd::Min(2), enf: Pd::True });
+        let with_foreign = self.exact(&[s2, f1]);
+        let ok = self.check_auth(&with_foreign, &[Cx::Call(2, 0)]); self.sit("foreign-signer-would-flip-policy", !ok);
+        let both = self.exact(&[s3, s2]);
+        let ok = self.check_auth(&both, &[Cx::Call(2, 0)]); let e3 = self.enforced(3); self.sit("policy-met-by-rule-signers", ok && e3);
+        // -- refusal for one reason only: a bad signature / an enforce hook / a trapping can_enforce hook
+        let bad = Authz { sigs: std::vec![(s1, Cls::Good), (f1, Cls::Bad(1))], auths: std::vec![] };
+        let ok = self.check_auth(&bad, &[c]); self.sit("only-a-bad-signature-refuses", !ok);
+        self.set_mode(0, ra, &Md { install: true, uninstall: true, can: Pd::True, enf: Pd::False });
+        let ok = self.check_auth(&a1, &[c]); self.sit("only-an-enforce-hook-refuses", !ok);
+        self.set_mode(0, ra, &Md { install: true, uninstall: true, can: Pd::Trap, enf: Pd::True });
+        let ok = self.check_auth(&a1, &[c]); self.sit("trapping-can-enforce-aborts", !ok);
+        self.set_mode(0, ra, &Md { install: true, uninstall: true, can: Pd::True, enf: Pd::True });
+        // -- batches of more than four contexts, directly and end to end
+        let all = self.exact(&[s1, s2, Sg::Del(0)]);
+        let six = [c, Cx::Call(2, 0), Cx::Create(1), Cx::Call(3, 10), Cx::Call(1, 0), Cx::CreateCtor(1)];
+        let ok = self.check_auth(&all, &six); self.sit("batch-of-six-contexts", ok && self.last_log.iter().filter(|l| l.starts_with("EEnforce")).count() >= 3);
+        let ok = self.invoke_transfers(&all, &[1, 2, 3, 4]); self.sit("end-to-end-batch-of-five", ok);
+        // -- create-contract contexts derived by the host from a real deployment
+        let ok = self.invoke_deploy(&all, 0); self.sit("create-contract-end-to-end", ok && self.enforced(2));
+        let ok = self.invoke_deploy(&all, 1); self.sit("create-contract-with-constructor-end-to-end", ok);
+        let ok = self.invoke_deploy(&a2, 0); self.sit("create-contract-end-to-end-refused", !ok);
+        self.add(Ct::Create(0), None, &[s2], &[(4, 1)]);
+        let a2d = self.exact(&[s2, Sg::Del(0), s1]);
+        let ok = self.invoke_deploy(&a2d, 0); let e4 = self.enforced(4); self.sit("create-contract-end-to-end-typed-rule", ok && e4);
+        // -- a rule at MAX_SIGNERS: all of them / one missing
+        let uni = self.universe();
+        let maxs = MAX_SIGNERS as usize;
+        let big = self.w.adds; self.add(Ct::Call(3), None, &uni[..maxs], &[]);
+        let a = self.exact(&uni[..maxs]); let ok = self.check_auth(&a, &[Cx::Call(3, 9)]);
+        self.sit("rule-at-max-signers-all-sign", ok && !self.enforced(2) && !self.enforced(5));
+        let a = self.exact(&uni[1..maxs]); let ok = self.check_auth(&a, &[Cx::Call(3, 9)]);
+        self.sit("rule-at-max-signers-one-missing", ok && self.enforced(5));   // passed over: the older policy-only rule decides instead
+        self.admin(&adm, &Op::AddSigner(big, uni[maxs])); let n_after = self.w.rules().iter().find(|r| r.id == big).map(|r| r.signers.len()).unwrap_or(0);
+        self.sit("signer-beyond-max-refused", n_after as usize == maxs);
+        // -- the table at MAX_CONTEXT_RULES, precedence still newest-first among many
+        let mut k = 0usize;
+        while self.w.rules().len() < MAX_CONTEXT_RULES as usize && k < 40 {
+            let ss = [uni[(k + 2) % uni.len()], s1];
+            self.add(Ct::Call(1), None, &ss, &[]);
+            k += 1;
+        }
+        let full = self.w.rules().len() == MAX_CONTEXT_RULES as usize;
+        let before = self.w.adds; self.add(Ct::Call(2), None, &[uni[5]], &[]);
+        self.sit("table-at-max-rules-refuses-one-more", full && self.w.adds == before);
+        let newest_signers: std::vec::Vec<Sg> = self.w.rules().iter().filter(|r| r.context_type == self.w.ctype(Ct::Call(1))).last().map(|r| r.signers.iter().filter_map(|s| self.sg_of(&s)).collect()).unwrap_or_default();
+        let a = self.exact(&newest_signers);
+        let ok = self.check_auth(&a, &[c]); self.sit("table-at-max-rules-newest-decides", full && ok && !self.enforced(0) && !self.enforced(1));
+        let ok = self.check_auth(&a1, &[c]); let e0 = self.enforced(0); self.sit("table-at-max-rules-oldest-reached", full && ok && e0);
     }
     fn finish(self, desc: &str) {
         let cfg = format!("{{| max_rules := {}; max_signers := {}; max_policies := {} |}}", MAX_CONTEXT_RULES, MAX_SIGNERS, MAX_POLICIES);
@@ -1357,7 +1505,7 @@ fn main() {
         let mut r = rng.fork(tidx as u64);
         if !out.wants(tidx) { tidx += 1; continue; }
         let small = !r.chance(1, 5);
-        let mut t = Tr { w: World::new(tidx % 2), items: std::vec![], out: &mut out, nsig: if small { 3 } else { 5 }, nkey: if small { 2 } else { 3 }, npol: if small { 3 } else { 5 } };
+        let mut t = Tr { w: World::new(tidx % 2), items: std::vec![], out: &mut out, nsig: if small { 3 } else { 5 }, nkey: if small { 2 } else { 3 }, npol: if small { 3 } else { 5 }, last_log: std::vec![], salt: 0 };
         t.advance(10);
         let ss = { let mut s = t.gen_signers(&mut r, 2); if s.is_empty() && !r.chance(1, 8) { s.push(Sg::Del(0)); } s };
         let ps: std::vec::Vec<(usize, u32)> = if r.chance(1, 4) { std::vec![(r.below(t.npol as u64) as usize, 2)] } else { std::vec![] };
@@ -1373,7 +1521,7 @@ fn main() {
     for k in 0..(9 * nsc) {
         let mut r = rng.fork(7000 + tidx as u64);
         if !out.wants(tidx) { tidx += 1; continue; }
-        let mut t = Tr { w: World::new(tidx % 2), items: std::vec![], out: &mut out, nsig: 4, nkey: 3, npol: 4 };
+        let mut t = Tr { w: World::new(tidx % 2), items: std::vec![], out: &mut out, nsig: 4, nkey: 3, npol: 4, last_log: std::vec![], salt: 0 };
         let name = match k % 9 {
             8 => { t.sc_spending(&mut r); "real-spending-limit-policy" }
             7 => { t.sc_fingerprint(&mut r); "fingerprints" }
@@ -1388,13 +1536,21 @@ fn main() {
         t.finish(name);
         tidx += 1;
     }
+    // ---- the situations of the quantifier, one by one (deterministic; both host configurations) ----
+    for k in 0..(if thorough { 6 } else { 2 }) {
+        if !out.wants(tidx) { tidx += 1; continue; }
+        let mut t = Tr { w: World::new(k % 2), items: std::vec![], out: &mut out, nsig: 4, nkey: 3, npol: 4, last_log: std::vec![], salt: 0 };
+        t.sc_situations();
+        t.finish("situations");
+        tidx += 1;
+    }
     // ---- persistence across long ledger gaps (both host configurations for every gap) ----
     let gaps = [20u32, 100, 17_281, 20_000, 600_000, 4_000_000];
     let npe = if thorough { 10 } else { 1 } * scale;
     for k in 0..(npe * 2 * gaps.len()) {
         let mut r = rng.fork(8000 + tidx as u64);
         if !out.wants(tidx) { tidx += 1; continue; }
-        let mut t = Tr { w: World::new(k % 2), items: std::vec![], out: &mut out, nsig: 4, nkey: 3, npol: 4 };
+        let mut t = Tr { w: World::new(k % 2), items: std::vec![], out: &mut out, nsig: 4, nkey: 3, npol: 4, last_log: std::vec![], salt: 0 };
         t.sc_persistence(&mut r, gaps[(k / 2) % gaps.len()]);
         t.finish("persistence-across-ledger-gap");
         tidx += 1;
@@ -1404,7 +1560,7 @@ fn main() {
     for k in 0..nex {
         let mut r = rng.fork(9000 + tidx as u64);
         if !out.wants(tidx) { tidx += 1; continue; }
-        let mut t = Tr { w: World::new(tidx % 2), items: std::vec![], out: &mut out, nsig: 2, nkey: 1, npol: 3 };
+        let mut t = Tr { w: World::new(tidx % 2), items: std::vec![], out: &mut out, nsig: 2, nkey: 1, npol: 3, last_log: std::vec![], salt: 0 };
         if thorough && k % 3 == 0 { t.sc_exhaustive(&mut r, 3, 2); } else { t.sc_exhaustive(&mut r, 2, 1 + (k % 2)); }
         t.finish("all-signer-subsets");
         tidx += 1;
